@@ -1,5 +1,5 @@
 (* C11 - proofs about the lifecycle (model: Lifecycle.v). *)
-From SF Require Import Base.Prelude Gen.Generated Dispatch.ReqOrder Dispatch.ReqOrderProofs
+From SF Require Import Base.Prelude Gen.Generated Gen.Gen_c11 Dispatch.ReqOrder Dispatch.ReqOrderProofs
   Dispatch.Dispatch Dispatch.DispatchProofs Dispatch.Lifecycle.
 From Coq Require Import Permutation.
 Open Scope Z_scope.
@@ -296,3 +296,16 @@ Proof. unfold custom_u64, PE_CUSTOM_ZERO. intros H. destruct (c =? 0) eqn:E; zb;
 Lemma sfe_code_inj o1 d1 o2 d2 :
   0 <= d1 < 65536 -> 0 <= d2 < 65536 -> sfe_code o1 d1 = sfe_code o2 d2 -> o1 = o2 /\ d1 = d2.
 Proof. unfold sfe_code. intros. lia. Qed.
+
+(* ------------------------------------------------------------------------------------------ *)
+(* the literals of the model are the constants / the call order found in the Rust sources by
+   tools/gen_extra_c11.py on this run (coq/Gen/Gen_c11.v) *)
+Theorem source_ties :
+  C11_SIGHASH_NAMESPACE ++ [C11_SIGHASH_SEP] = global_prefix /\
+  (forall H name, sighash H name = firstn (Z.to_nat C11_SIGHASH_LEN) (H (sighash_preimage name))) /\
+  Z.of_nat (disc_width DSighash) = C11_DEFAULT_DISC_WIDTH /\
+  (forall offset disc, sfe_code offset disc = offset * 2 ^ C11_SFE_SHIFT + disc) /\
+  (forall vs, enum_discs vs C11_ENUM_DISC_START = enum_discs vs 0) /\ C11_ENUM_DISC_STEP = 1 /\
+  C11_PHASE_ORDER = [PH_ARGS; PH_DECODE; PH_VALIDATE; PH_PROCESS; PH_CLEANUP] /\
+  (forall armed ix data, map fst (ix_phases armed ix data) = C11_PHASE_ORDER).
+Proof. repeat split; reflexivity. Qed.
